@@ -8,15 +8,15 @@ git -C /repo worktree add -q --detach $WT HEAD || exit 3
 cleanup() { git -C /repo worktree remove --force $WT; }
 trap cleanup EXIT
 cd $WT
-if ! git apply $OUT/$X.diff 2>/tmp/seedv/apply.err; then echo "RESULT $ID$X patch-does-not-apply: $(head -2 /tmp/seedv/apply.err)"; exit 0; fi
+if ! git apply $OUT/$X.diff 2>/tmp/seedv/apply-$ID$X.err; then echo "RESULT $ID$X patch-does-not-apply: $(head -2 /tmp/seedv/apply-$ID$X.err)"; exit 0; fi
 SUITE=$(PYTHONPATH=$WT/src /venv/bin/python -m pytest -q -p no:cacheprovider 2>&1 | tail -1)
-timeout 600 /venv/bin/python $OUT/demo_$X.py $WT/src >/tmp/seedv/demo_with.log 2>&1; WITH=$?
+timeout 600 /venv/bin/python $OUT/demo_$X.py $WT/src >/tmp/seedv/demo_with-$ID$X.log 2>&1; WITH=$?
 git checkout -q -- .
-timeout 600 /venv/bin/python $OUT/demo_$X.py $WT/src >/tmp/seedv/demo_without.log 2>&1; WITHOUT=$?
+timeout 600 /venv/bin/python $OUT/demo_$X.py $WT/src >/tmp/seedv/demo_without-$ID$X.log 2>&1; WITHOUT=$?
 echo "RESULT $ID$X suite='$SUITE' demo_with_change=$WITH demo_without=$WITHOUT"
 if [[ "$SUITE" == "854 passed"* && $WITH == 1 && $WITHOUT == 0 ]]; then
   D=/verif/seeded/$ID-$X; mkdir -p $D
   cp $OUT/$X.diff $D/patch.diff; cp $OUT/demo_$X.py $D/demo.py
-  tail -5 /tmp/seedv/demo_with.log > $D/demo_output_with_change.txt
+  tail -5 /tmp/seedv/demo_with-$ID$X.log > $D/demo_output_with_change.txt
   echo "KEEP $D"
 fi
